@@ -12,9 +12,11 @@ baseline = json.load(open("/root/.vp/BASELINE.json"))["cmd"] if os.path.exists("
 hooks_path = os.path.join(ROOT, "lib", "hooks.json")
 hooks = json.load(open(hooks_path)) if os.path.exists(hooks_path) else {"source_commits": []}
 
+ready_path = os.path.join(ROOT, "lib", "ready.txt")
+ready = set(open(ready_path).read().split()) if os.path.exists(ready_path) else set(props.PROPS)
 checks = []
 for pid in all_ids:
-    if pid not in props.PROPS:
+    if pid not in props.PROPS or pid not in ready:
         continue
     p = props.PROPS[pid]
     checks.append({
@@ -30,7 +32,9 @@ for pid in all_ids:
     })
 na = []
 for pid in all_ids:
-    if pid not in props.PROPS:
+    if pid in props.PROPS and pid not in ready:
+        na.append({"property_id": pid, "reason": na_reasons.get(pid, "monitor built (harness/gxv/src/%s.rs) but not claimed yet: triage of what it reports on the unchanged tree (fix vs known finding) is still in progress" % pid.lower())})
+    elif pid not in props.PROPS:
         na.append({"property_id": pid, "reason": na_reasons.get(pid, "monitor not built yet in this round (runtime monitoring applies; see DESIGN.md section 3)")})
 m = {
     "version": 1,
